@@ -1,15 +1,518 @@
-import FunModel.Dll
-import FunModel.Sll
+import FunProofs.Dll
 
-/-! C16 — placeholder (the development is in progress in FunProofs/Dll.lean) -/
+/-! C16 — `dt.List` / `dt.Element` (circular doubly linked list with a sentinel), pointer level.
+
+    Every public list operation keeps ALL lists of the heap well-formed (`WF h g`, for any number
+    of lists of any length) and acts on the ghost sequences `g l` (the element addresses held by
+    list `l`, front to back) exactly like the corresponding operation on a plain sequence; no
+    operation panics on allocated arguments; `ok`/`item` of untouched elements do not change
+    (`Frame`), so the value sequences `vals h g l = (g l).map item` evolve like plain slices.
+    `Element.Swap` as written does NOT keep the invariant (`swap_breaks_wf`).
+
+    Property theorems only. The definitions `Chain`, `LWF`, `WF`, `Frame`, `FrameExcept`, `upd`,
+    `insertAfter`, `lastOr`, `vals`, `Op`, `Op.valid`, `Op.run`, `Reachable`, `runOps`, the witnesses
+    `demo4`, `demoSwap`, `demoOps` and all helper lemmas are in `FunProofs/Dll.lean`. -/
+
 namespace FunModel.C16
 open FunModel.Dll
 
-/-- `Set` on an element never touches any list header -/
+variable {h : Heap} {g : Nat → List Nat}
+
+/-! ### 0. what the invariant says -/
+
+/-- the empty heap is well-formed -/
+theorem wf_empty : WF {} (fun _ => []) := WF.empty
+
+/-- a list without sentinel is empty with length 0; unallocated lists have default headers -/
+theorem wf_no_root (hw : WF h g) {l : Nat} (hr : (h.hdr l).root = none) :
+    g l = [] ∧ (h.hdr l).length = 0 := by
+  have h1 := (hw.lwf l).empty hr
+  have h2 := (hw.lwf l).len
+  rw [h1] at h2
+  exact ⟨h1, h2⟩
+
+theorem wf_unallocated (hw : WF h g) {l : Nat} (hl : h.nl ≤ l) : h.hdr l = {} ∧ g l = [] :=
+  ⟨hw.hdr_unalloc hl, hw.ghost_unalloc hl⟩
+
+/-- the sentinel `r` of `l`: allocated list, allocated element, not ok, owned by `l`, in no ghost
+    sequence; `next` from `r` runs through `g l` back to `r` and `prev` is the inverse -/
+theorem wf_root (hw : WF h g) {l r : Nat} (hr : (h.hdr l).root = some r) :
+    l < h.nl ∧ r < h.nn ∧ (h.node r).ok = false ∧ (h.node r).list = some l ∧ Chain h r (g l) r ∧
+      (∀ l', r ∉ g l') ∧ (∀ l', (h.hdr l').root = some r → l' = l) := by
+  obtain ⟨h1, h2, h3, h4⟩ := (hw.lwf l).root r hr
+  exact ⟨hw.root_lt hr, h1, h2, h3, h4, fun _ => hw.root_not_mem hr, fun _ hr' => hw.roots_distinct hr' hr⟩
+
+/-- `Chain` spelled out: `next` of the sentinel / of each element is the successor in
+    `g l ++ [r]`, `prev` is the predecessor in `r :: g l` -/
+theorem wf_links (hw : WF h g) {l r : Nat} (hr : (h.hdr l).root = some r) :
+    (h.node r).next = some ((g l).headD r) ∧ (h.node r).prev = some (lastOr r (g l)) ∧
+      ∀ pre e post, g l = pre ++ e :: post →
+        (h.node e).next = some (post.headD r) ∧ (h.node e).prev = some (lastOr r pre) := by
+  obtain ⟨_, _, _, h4⟩ := (hw.lwf l).root r hr
+  refine ⟨h4.next_first, h4.prev_last, ?_⟩
+  intro pre e post hg
+  rw [hg] at h4
+  exact ⟨h4.next_mid, h4.prev_mid⟩
+
+/-- the length field is the length of the ghost sequence -/
+theorem wf_length (hw : WF h g) (l : Nat) : (h.hdr l).length = (g l).length := (hw.lwf l).len
+
+theorem wf_nodup (hw : WF h g) (l : Nat) : (g l).Nodup := (hw.lwf l).nodup
+
+/-- elements are allocated, ok, owned by their list, and are not sentinels -/
+theorem wf_elem (hw : WF h g) {l x : Nat} (hx : x ∈ g l) :
+    x < h.nn ∧ (h.node x).ok = true ∧ (h.node x).list = some l ∧ ∀ l', (h.hdr l').root ≠ some x := by
+  obtain ⟨h1, h2, h3⟩ := (hw.lwf l).elem x hx
+  exact ⟨h1, h2, h3, fun l' hr => hw.root_not_mem hr hx⟩
+
+/-- distinct lists share no element -/
+theorem wf_disjoint (hw : WF h g) {l l' x : Nat} (hne : l ≠ l') (hx : x ∈ g l) : x ∉ g l' :=
+  fun hx' => hne (hw.disjoint hx hx')
+
+/-- every address that is no sentinel and in no list is detached (this includes all unallocated
+    addresses) -/
+theorem wf_detached (hw : WF h g) {a : Nat} (hr : ∀ l, (h.hdr l).root ≠ some a) (hm : ∀ l, a ∉ g l) :
+    (h.node a).list = none := hw.detached hr hm
+
+theorem wf_unallocated_elem (hw : WF h g) {a : Nat} (ha : h.nn ≤ a) : (h.node a).list = none :=
+  hw.list_none_of_ge ha
+
+/-! ### 1. allocation and `lazySetup` -/
+
+theorem allocList_spec (hw : WF h g) :
+    h.allocList.2 = h.nl ∧ WF h.allocList.1 g ∧ g h.nl = [] ∧ (h.allocList.1.hdr h.nl).root = none ∧
+      h.allocList.1.nl = h.nl + 1 ∧ Frame h h.allocList.1 :=
+  ⟨rfl, hw.allocList, hw.ghost_unalloc (Nat.le_refl _), by simp, rfl, Frame.allocList hw⟩
+
+/-- `NewElement v`: a fresh, detached, ok element -/
+theorem makeElem_spec (hw : WF h g) (v : Int) :
+    (h.makeElem v).2 = h.nn ∧ WF (h.makeElem v).1 g ∧
+      (h.makeElem v).1.node h.nn = { ok := true, item := v } ∧ (h.makeElem v).1.nn = h.nn + 1 ∧
+      Frame h (h.makeElem v).1 :=
+  ⟨rfl, hw.alloc rfl, by simp [Heap.makeElem], rfl, Frame.alloc h _⟩
+
+theorem lazySetup_spec (hw : WF h g) {l : Nat} (hl : l < h.nl) :
+    WF (h.lazySetup l) g ∧ Frame h (h.lazySetup l) ∧ ∃ r, ((h.lazySetup l).hdr l).root = some r :=
+  hw.lazySetup hl
+
+theorem lazySetup_idem {l r : Nat} (hr : (h.hdr l).root = some r) : h.lazySetup l = h :=
+  Heap.lazySetup_some hr
+
+/-! ### 2. `PushFront` / `PushBack` -/
+
+theorem pushBack_spec (hw : WF h g) {l : Nat} (hl : l < h.nl) (v : Int) :
+    ∃ h' n, h.pushBack l v = some h' ∧ h.nn ≤ n ∧ WF h' (upd g l (g l ++ [n])) ∧
+      (h'.node n).item = v ∧ Frame h h' := by
+  obtain ⟨h', n, h1, h2, h3, h4, h5⟩ := hw.pushBack hl v
+  exact ⟨h', n, h1, h4, h2, h5, h3⟩
+
+theorem pushFront_spec (hw : WF h g) {l : Nat} (hl : l < h.nl) (v : Int) :
+    ∃ h' n, h.pushFront l v = some h' ∧ h.nn ≤ n ∧ WF h' (upd g l (n :: g l)) ∧
+      (h'.node n).item = v ∧ Frame h h' := by
+  obtain ⟨h', n, h1, h2, h3, h4, h5⟩ := hw.pushFront hl v
+  exact ⟨h', n, h1, h4, h2, h5, h3⟩
+
+/-- value level: `PushBack` appends `v` to `l` and leaves every other list alone -/
+theorem pushBack_vals (hw : WF h g) {l : Nat} (hl : l < h.nl) (v : Int) :
+    ∃ h' g', h.pushBack l v = some h' ∧ WF h' g' ∧ vals h' g' l = vals h g l ++ [v] ∧
+      ∀ l', l' ≠ l → vals h' g' l' = vals h g l' := by
+  obtain ⟨h', n, h1, h2, h3, h4, h5⟩ := hw.pushBack hl v
+  refine ⟨h', _, h1, h2, ?_, fun l' hl' => h3.vals hw (upd_other g _ hl')⟩
+  simp only [vals, upd_same, List.map_append, List.map_cons, List.map_nil, h5]
+  rw [h3.map_item (fun x hx => ((hw.lwf l).elem x hx).1)]
+
+theorem pushFront_vals (hw : WF h g) {l : Nat} (hl : l < h.nl) (v : Int) :
+    ∃ h' g', h.pushFront l v = some h' ∧ WF h' g' ∧ vals h' g' l = v :: vals h g l ∧
+      ∀ l', l' ≠ l → vals h' g' l' = vals h g l' := by
+  obtain ⟨h', n, h1, h2, h3, h4, h5⟩ := hw.pushFront hl v
+  refine ⟨h', _, h1, h2, ?_, fun l' hl' => h3.vals hw (upd_other g _ hl')⟩
+  simp only [vals, upd_same, List.map_cons, h5]
+  rw [h3.map_item (fun x hx => ((hw.lwf l).elem x hx).1)]
+
+/-! ### 3. `PopFront` / `PopBack` -/
+
+/-- non-empty list: the head comes back, detached, with its data intact -/
+theorem popFront_nonempty (hw : WF h g) {l x : Nat} {xs : List Nat} (hg : g l = x :: xs) :
+    ∃ h', h.popFront l = some (h', x) ∧ WF h' (upd g l xs) ∧ (h'.node x).list = none ∧
+      (h'.node x).ok = true ∧ (h'.node x).item = (h.node x).item ∧ Frame h h' := by
+  obtain ⟨h', h1, h2, h3, h4⟩ := hw.popFront_cons hg
+  obtain ⟨hx1, hx2, _⟩ := (hw.lwf l).elem x (by simp [hg])
+  exact ⟨h', h1, h2, h4, by rw [(h3.data x hx1).1]; exact hx2, (h3.data x hx1).2, h3⟩
+
+theorem popBack_nonempty (hw : WF h g) {l x : Nat} {xs : List Nat} (hg : g l = xs ++ [x]) :
+    ∃ h', h.popBack l = some (h', x) ∧ WF h' (upd g l xs) ∧ (h'.node x).list = none ∧
+      (h'.node x).ok = true ∧ (h'.node x).item = (h.node x).item ∧ Frame h h' := by
+  obtain ⟨h', h1, h2, h3, h4⟩ := hw.popBack_snoc hg
+  obtain ⟨hx1, hx2, _⟩ := (hw.lwf l).elem x (by simp [hg])
+  exact ⟨h', h1, h2, h4, by rw [(h3.data x hx1).1]; exact hx2, (h3.data x hx1).2, h3⟩
+
+/-- empty list: a fresh, detached, not-ok element comes back and nothing else changes -/
+theorem popFront_empty (hw : WF h g) {l : Nat} (hl : l < h.nl) (hg : g l = []) :
+    ∃ h' z, h.popFront l = some (h', z) ∧ WF h' g ∧ h.nn ≤ z ∧ z < h'.nn ∧ h'.node z = {} ∧
+      Frame h h' := by
+  obtain ⟨h', z, h1, _, h3, h4, h5, h6, h7⟩ := hw.pop_empty hl hg
+  exact ⟨h', z, h1, h3, h5, h6, h7, h4⟩
+
+theorem popBack_empty (hw : WF h g) {l : Nat} (hl : l < h.nl) (hg : g l = []) :
+    ∃ h' z, h.popBack l = some (h', z) ∧ WF h' g ∧ h.nn ≤ z ∧ z < h'.nn ∧ h'.node z = {} ∧
+      Frame h h' := by
+  obtain ⟨h', z, _, h2, h3, h4, h5, h6, h7⟩ := hw.pop_empty hl hg
+  exact ⟨h', z, h2, h3, h5, h6, h7, h4⟩
+
+/-! ### 4. `Element.Append` -/
+
+/-- accepted: `n` allocated, ok and detached, `e` attached to `l` (an element of `l` or `l`'s
+    sentinel): `n` is inserted right after `e` (at the front for the sentinel) and returned -/
+theorem elemAppend_accepted (hw : WF h g) {l e n : Nat} (he : (h.node e).list = some l)
+    (hn : n < h.nn) (hok : (h.node n).ok = true) (hdet : (h.node n).list = none) :
+    ∃ h', h.elemAppend e (some n) = some (h', n) ∧
+      WF h' (upd g l (if (h.hdr l).root = some e then n :: g l else insertAfter e n (g l))) ∧
+      Frame h h' ∧ h'.nn = h.nn ∧ h'.nl = h.nl :=
+  hw.elemAppend_accept he hn hok hdet
+
+/-- `insertAfter` really inserts after `e` -/
+theorem insertAfter_spec {e n : Nat} {pre post : List Nat} (he : e ∉ pre) :
+    insertAfter e n (pre ++ e :: post) = pre ++ e :: n :: post := insertAfter_split he
+
+/-- rejected (nil argument, `n` not ok, `e` detached, `n` attached or a sentinel): nothing
+    changes and `e` is returned -/
+theorem elemAppend_rejected {e : Nat} {new : Option Nat}
+    (hrej : new = none ∨ ∃ n, new = some n ∧
+      ((h.node n).ok = false ∨ (h.node e).list = none ∨ (h.node n).list ≠ none)) :
+    h.elemAppend e new = some (h, e) := by
+  apply Heap.elemAppend_reject
+  rcases hrej with rfl | ⟨n, rfl, hc⟩
+  · rfl
+  · rcases hc with hc | hc | hc
+    · simp [Heap.appendable, hc]
+    · simp [Heap.appendable, hc]
+    · cases hl : (h.node n).list with
+      | none => exact absurd hl hc
+      | some _ => simp [Heap.appendable, hl]
+
+/-- the same two theorems with the side conditions phrased on the ghost state: accepted iff `n` is
+    ok and neither a sentinel nor in a list, and `e` is a sentinel or in a list -/
+theorem elemAppend_accepted_ghost (hw : WF h g) {l e n : Nat}
+    (he : (h.hdr l).root = some e ∨ e ∈ g l) (hn : n < h.nn) (hok : (h.node n).ok = true)
+    (hnr : ∀ l', (h.hdr l').root ≠ some n) (hnm : ∀ l', n ∉ g l') :
+    ∃ h', h.elemAppend e (some n) = some (h', n) ∧
+      WF h' (upd g l (if (h.hdr l).root = some e then n :: g l else insertAfter e n (g l))) ∧
+      Frame h h' ∧ h'.nn = h.nn ∧ h'.nl = h.nl := by
+  have hel : (h.node e).list = some l := by
+    rcases he with he | he
+    · exact ((hw.lwf l).root e he).2.2.1
+    · exact ((hw.lwf l).elem e he).2.2
+  exact hw.elemAppend_accept hel hn hok (hw.detached hnr hnm)
+
+theorem elemAppend_rejected_ghost (hw : WF h g) {e : Nat} {new : Option Nat}
+    (hrej : new = none ∨ ∃ n, new = some n ∧
+      ((h.node n).ok = false ∨ ((∀ l, (h.hdr l).root ≠ some e) ∧ ∀ l, e ∉ g l) ∨
+        ∃ l, (h.hdr l).root = some n ∨ n ∈ g l)) :
+    h.elemAppend e new = some (h, e) := by
+  apply elemAppend_rejected
+  rcases hrej with rfl | ⟨n, rfl, hc⟩
+  · exact Or.inl rfl
+  · refine Or.inr ⟨n, rfl, ?_⟩
+    rcases hc with hc | ⟨h1, h2⟩ | ⟨l, hc⟩
+    · exact Or.inl hc
+    · exact Or.inr (Or.inl (hw.detached h1 h2))
+    · refine Or.inr (Or.inr ?_)
+      have : (h.node n).list = some l := by
+        rcases hc with hc | hc
+        · exact ((hw.lwf l).root n hc).2.2.1
+        · exact ((hw.lwf l).elem n hc).2.2
+      rw [this]; simp
+
+/-- the two cases are exhaustive: `Append` never panics -/
+theorem elemAppend_total (hw : WF h g) {e : Nat} {new : Option Nat} (hn : ∀ n, new = some n → n < h.nn) :
+    ∃ h' g' x, h.elemAppend e new = some (h', x) ∧ WF h' g' ∧ Frame h h' := by
+  cases ha : h.appendable e new with
+  | false => exact ⟨h, g, e, Heap.elemAppend_reject ha, hw, Frame.refl h⟩
+  | true =>
+    obtain ⟨n, rfl, h1, h2, h3⟩ := Heap.appendable_eq_true.1 ha
+    obtain ⟨l, hl⟩ := Option.isSome_iff_exists.1 h2
+    obtain ⟨h', e1, hw', hf, _⟩ := hw.elemAppend_accept hl (hn n rfl) h1 h3
+    exact ⟨h', _, n, e1, hw', hf⟩
+
+/-! ### 5. `Element.Remove`, `Drop`, `Set` -/
+
+/-- an element of a list is unlinked: `true`, and it ends up detached with its data intact -/
+theorem elemRemove_attached (hw : WF h g) {l e : Nat} (hm : e ∈ g l) :
+    ∃ h', h.elemRemove e = some (h', true) ∧ WF h' (upd g l ((g l).erase e)) ∧ Frame h h' ∧
+      h'.nn = h.nn ∧ h'.nl = h.nl ∧ (h'.node e).list = none :=
+  hw.elemRemove_mem hm
+
+/-- sentinels and detached elements: `false`, nothing changes -/
+theorem elemRemove_other (hw : WF h g) {e : Nat} (hm : ∀ l, e ∉ g l) : h.elemRemove e = some (h, false) :=
+  hw.elemRemove_not hm
+
+theorem elemDrop_attached (hw : WF h g) {l e : Nat} (hm : e ∈ g l) :
+    ∃ h', h.elemDrop e = some h' ∧ WF h' (upd g l ((g l).erase e)) ∧ FrameExcept e h h' ∧
+      h'.nn = h.nn ∧ h'.nl = h.nl ∧
+      (h'.node e).list = none ∧ (h'.node e).ok = false ∧ (h'.node e).item = 0 :=
+  hw.elemDrop_mem hm
+
+theorem elemDrop_other (hw : WF h g) {e : Nat} (hm : ∀ l, e ∉ g l) : h.elemDrop e = some h :=
+  hw.elemDrop_not hm
+
+/-- `Set` refuses exactly the sentinels -/
+theorem elemSet_refuses_iff (hw : WF h g) (e : Nat) (v : Int) :
+    (h.elemSet e v).2 = false ↔ ∃ l, (h.hdr l).root = some e := by
+  by_cases hr : ∃ l, (h.hdr l).root = some e
+  · obtain ⟨l, hr'⟩ := hr
+    simp only [Heap.elemSet_root ((hw.lwf l).root e hr').2.2.1 hr' v, true_iff]
+    exact ⟨l, hr'⟩
+  · have := (hw.elemSet_nonroot (e := e) (fun l hx => hr ⟨l, hx⟩) v).1
+    simp [this, hr]
+
+theorem elemSet_root (hw : WF h g) {l e : Nat} (hr : (h.hdr l).root = some e) (v : Int) :
+    h.elemSet e v = (h, false) :=
+  Heap.elemSet_root ((hw.lwf l).root e hr).2.2.1 hr v
+
+/-- on anything else `Set` stores the value, makes the element ok and changes nothing else -/
+theorem elemSet_nonroot (hw : WF h g) {e : Nat} (hr : ∀ l, (h.hdr l).root ≠ some e) (v : Int) :
+    ∃ h', h.elemSet e v = (h', true) ∧ WF h' g ∧ (h'.node e).ok = true ∧ (h'.node e).item = v ∧
+      FrameExcept e h h' := by
+  obtain ⟨h1, h2⟩ := hw.elemSet_nonroot hr v
+  exact ⟨_, h1, h2, by simp, by simp, FrameExcept.setData h e true v⟩
+
+/-- `Set` never touches any list header -/
 theorem set_keeps_headers (h : Heap) (e : Nat) (v : Int) : (h.elemSet e v).1.hdr = h.hdr := by
   unfold Heap.elemSet
-  split
-  · split <;> rfl
-  · rfl
+  cases (h.node e).list with
+  | none => rfl
+  | some l => by_cases hr : (h.hdr l).root = some e <;> simp [hr]
+
+/-! ### 6. `Extend`, `Copy`, the pop iterators -/
+
+/-- `l.Extend(src)` for `src ≠ l` moves all elements of `src` to the back of `l` -/
+theorem extend_spec (hw : WF h g) {l src : Nat} (hl : l < h.nl) (hs : src < h.nl) (hne : l ≠ src) :
+    ∃ h', h.extend l src = some h' ∧ WF h' (upd (upd g l (g l ++ g src)) src []) ∧ Frame h h' :=
+  hw.extend hl hs hne
+
+theorem extend_vals (hw : WF h g) {l src : Nat} (hl : l < h.nl) (hs : src < h.nl) (hne : l ≠ src) :
+    ∃ h' g', h.extend l src = some h' ∧ WF h' g' ∧ vals h' g' l = vals h g l ++ vals h g src ∧
+      vals h' g' src = [] ∧ ∀ l', l' ≠ l → l' ≠ src → vals h' g' l' = vals h g l' := by
+  obtain ⟨h', h1, h2, h3⟩ := hw.extend hl hs hne
+  refine ⟨h', _, h1, h2, ?_, ?_, ?_⟩
+  · simp only [vals, upd_other _ _ hne, upd_same, List.map_append]
+    rw [h3.map_item (fun x hx => ((hw.lwf l).elem x hx).1),
+      h3.map_item (fun x hx => ((hw.lwf src).elem x hx).1)]
+  · simp [vals]
+  · intro l' h4 h5
+    exact h3.vals hw (by rw [upd_other _ _ h5, upd_other _ _ h4])
+
+/-- `Copy`: a new list (address `h.nl`) of fresh elements carrying the same items in order;
+    the source and all other lists keep their sequences -/
+theorem copy_spec (hw : WF h g) {l : Nat} (hl : l < h.nl) :
+    ∃ h' ns, h.copy l = some (h', h.nl) ∧ WF h' (upd g h.nl ns) ∧ (∀ n, n ∈ ns → h.nn ≤ n) ∧
+      vals h' (upd g h.nl ns) h.nl = vals h g l ∧
+      (∀ l', l' < h.nl → vals h' (upd g h.nl ns) l' = vals h g l') ∧ Frame h h' := by
+  obtain ⟨h', ns, h1, h2, h3, h4, h5⟩ := hw.copy hl
+  refine ⟨h', ns, h1, h2, h5, ?_, ?_, h3⟩
+  · simpa [vals] using h4
+  · intro l' hl'
+    exact h3.vals hw (upd_other _ _ (Nat.ne_of_lt hl'))
+
+/-- `ProducerPop` run to EOF (`fuel` calls): yields the first `fuel` elements in order and
+    leaves the rest -/
+theorem popIterFront_spec (hw : WF h g) {l : Nat} (hl : l < h.nl) (fuel : Nat) (acc : List Nat) :
+    ∃ h', h.popIterLoop l false fuel acc = some (h', acc.reverse ++ (g l).take fuel) ∧
+      WF h' (upd g l ((g l).drop fuel)) ∧ Frame h h' :=
+  hw.popIterFront fuel hl
+
+/-- `ProducerReversePop`: the same from the back -/
+theorem popIterBack_spec (hw : WF h g) {l : Nat} (hl : l < h.nl) (fuel : Nat) (acc : List Nat) :
+    ∃ h', h.popIterLoop l true fuel acc = some (h', acc.reverse ++ (g l).reverse.take fuel) ∧
+      WF h' (upd g l ((g l).reverse.drop fuel).reverse) ∧ Frame h h' :=
+  hw.popIterBack fuel hl
+
+/-- with enough fuel the iterators drain the list completely -/
+theorem popIter_drains (hw : WF h g) {l : Nat} (hl : l < h.nl) {fuel : Nat} (hf : (g l).length < fuel)
+    (fromBack : Bool) :
+    ∃ h', h.popIterLoop l fromBack fuel [] = some (h', if fromBack then (g l).reverse else g l) ∧
+      WF h' (upd g l []) ∧ Frame h h' := by
+  cases fromBack with
+  | false =>
+    obtain ⟨h', h1, h2, h3⟩ := hw.popIterFront fuel (acc := []) hl
+    rw [List.take_of_length_le (Nat.le_of_lt hf), List.drop_of_length_le (Nat.le_of_lt hf)] at *
+    exact ⟨h', by simpa using h1, h2, h3⟩
+  | true =>
+    obtain ⟨h', h1, h2, h3⟩ := hw.popIterBack fuel (acc := []) hl
+    have hf' : (g l).reverse.length ≤ fuel := by simpa using Nat.le_of_lt hf
+    rw [List.take_of_length_le hf', List.drop_of_length_le hf'] at *
+    exact ⟨h', by simpa using h1, by simpa using h2, h3⟩
+
+/-! ### 7. observations -/
+
+/-- the public forward traversal sees exactly the ghost sequence … -/
+theorem walkFwd_eq (hw : WF h g) {l : Nat} (hl : l < h.nl) {fuel : Nat} (hf : (g l).length < fuel) :
+    (h.lazySetup l).walkFwd l fuel = (g l, "end") := by
+  obtain ⟨hw', _, r, hr⟩ := hw.lazySetup hl
+  exact hw'.walkFwd hr hf
+
+/-- … the backward traversal its reverse … -/
+theorem walkBwd_eq (hw : WF h g) {l : Nat} (hl : l < h.nl) {fuel : Nat} (hf : (g l).length < fuel) :
+    (h.lazySetup l).walkBwd l fuel = ((g l).reverse, "end") := by
+  obtain ⟨hw', _, r, hr⟩ := hw.lazySetup hl
+  exact hw'.walkBwd hr hf
+
+/-- … `Len` its length … -/
+theorem len_eq (hw : WF h g) (l : Nat) : (h.hdr l).length = (g l).length := (hw.lwf l).len
+
+/-- … and `In` is membership (for non-sentinels) -/
+theorem in_iff (hw : WF h g) {a l : Nat} (hr : ∀ l, (h.hdr l).root ≠ some a) :
+    (h.node a).list = some l ↔ a ∈ g l := hw.mem_iff hr
+
+/-! ### 8. `Element.Swap` -/
+
+theorem elemSwap_nil (e : Nat) : h.elemSwap e none = some (h, false) := rfl
+
+theorem elemSwap_detached {e w : Nat} (he : (h.node e).list = none) : h.elemSwap e (some w) = some (h, false) := by
+  simp [Heap.elemSwap, he]
+
+theorem elemSwap_other_list {e w : Nat} (he : (h.node e).list ≠ (h.node w).list) :
+    h.elemSwap e (some w) = some (h, false) := by
+  simp [Heap.elemSwap, he]
+
+theorem elemSwap_self (e : Nat) : h.elemSwap e (some e) = some (h, false) := by
+  simp [Heap.elemSwap]
+
+/-- `demo4` is a well-formed heap whose list 0 holds the elements 1,2,3,4 with items 1,2,3,4 -/
+theorem demo4_wf : ∃ h g, demo4 = some h ∧ WF h g ∧ g 0 = [1, 2, 3, 4] ∧ vals h g 0 = [1, 2, 3, 4] := by
+  have hw0 : WF ({} : Heap).allocList.1 (fun _ => []) := WF.empty.allocList
+  obtain ⟨h1, n1, e1, hw1, f1, _⟩ := hw0.pushBack (l := 0) (by decide) 1
+  have l1 : 0 < h1.nl := Nat.lt_of_lt_of_le (by decide) f1.nl
+  obtain ⟨h2, n2, e2, hw2, f2, _⟩ := hw1.pushBack l1 2
+  have l2 : 0 < h2.nl := Nat.lt_of_lt_of_le l1 f2.nl
+  obtain ⟨h3, n3, e3, hw3, f3, _⟩ := hw2.pushBack l2 3
+  have l3 : 0 < h3.nl := Nat.lt_of_lt_of_le l2 f3.nl
+  obtain ⟨h4, n4, e4, hw4, f4, _⟩ := hw3.pushBack l3 4
+  obtain ⟨G, hw4⟩ : ∃ G, WF h4 G := ⟨_, hw4⟩
+  have hd : demo4 = some h4 := by simp [demo4, e1, e2, e3, e4]
+  have hwalk : (demo4.map fun h => (h.walkFwd 0 10).1) = some [1, 2, 3, 4] := by decide
+  have hitems : (demo4.map fun h => [1, 2, 3, 4].map fun a => (h.node a).item) = some [1, 2, 3, 4] := by
+    decide
+  have hroot : (demo4.map fun h => (h.hdr 0).root) = some (some 0) := by decide
+  have hlen : (demo4.map fun h => (h.hdr 0).length) = some 4 := by decide
+  rw [hd] at hwalk hitems hroot hlen
+  simp only [Option.map_some, Option.some.injEq] at hwalk hitems hroot hlen
+  have hl := (hw4.lwf 0).len
+  rw [hlen] at hl
+  have key := hw4.walkFwd hroot (fuel := 10) (by omega)
+  rw [key] at hwalk
+  have hg : G 0 = [1, 2, 3, 4] := hwalk
+  refine ⟨h4, G, hd, hw4, hg, ?_⟩
+  unfold vals
+  rw [hg]
+  exact hitems
+
+/-- `Element.Swap` as written breaks the invariant: swapping the first and the last element of
+    the well-formed list 1,2,3,4 reports success, but afterwards the forward traversal visits
+    only three elements (4,2,3 — element 1 is lost) while `Len` still says 4, the backward
+    traversal from the sentinel never comes back to it, and no ghost state makes the heap
+    well-formed. -/
+theorem swap_breaks_wf :
+    ∃ h0 g0 h, demo4 = some h0 ∧ WF h0 g0 ∧ g0 0 = [1, 2, 3, 4] ∧
+      h0.elemSwap 1 (some 4) = some (h, true) ∧
+      h.walkFwd 0 10 = ([4, 2, 3], "end") ∧ (h.hdr 0).length = 4 ∧
+      h.walkBwd 0 10 = ([3, 2, 4, 1, 5, 2, 4, 1, 5, 2], "cycle") ∧ ¬ ∃ g, WF h g := by
+  obtain ⟨h0, g0, hd, hw0, hg0, _⟩ := demo4_wf
+  have hs : demoSwap = h0.elemSwap 1 (some 4) := by simp [demoSwap, hd]
+  have h1 : (demoSwap.map fun p => p.2) = some true := by decide
+  have h2 : (demoSwap.map fun p => p.1.walkFwd 0 10) = some ([4, 2, 3], "end") := by decide
+  have h3 : (demoSwap.map fun p => (p.1.hdr 0).length) = some 4 := by decide
+  have h4 : (demoSwap.map fun p => p.1.walkBwd 0 10) = some ([3, 2, 4, 1, 5, 2, 4, 1, 5, 2], "cycle") := by
+    decide
+  have h5 : (demoSwap.map fun p => (p.1.hdr 0).root) = some (some 0) := by decide
+  rw [hs] at h1 h2 h3 h4 h5
+  cases hsw : h0.elemSwap 1 (some 4) with
+  | none => rw [hsw] at h1; cases h1
+  | some p =>
+    obtain ⟨h, b⟩ := p
+    rw [hsw] at h1 h2 h3 h4 h5
+    simp only [Option.map_some, Option.some.injEq] at h1 h2 h3 h4 h5
+    subst h1
+    refine ⟨h0, g0, h, hd, hw0, hg0, hsw, h2, h3, h4, ?_⟩
+    rintro ⟨g, hw⟩
+    have hl := (hw.lwf 0).len
+    rw [h3] at hl
+    have key := hw.walkFwd h5 (fuel := 10) (by omega)
+    rw [h2] at key
+    have : g 0 = [4, 2, 3] := (congrArg Prod.fst key).symm
+    rw [this] at hl
+    simp at hl
+
+/-! ### 9. all reachable states are well-formed -/
+
+/-- every state reachable from the empty heap by the operations of `Op` (AllocList, NewElement,
+    lazySetup, PushFront/Back, PopFront/Back, Append, Remove, Drop, Set, Extend (src ≠ l), Copy,
+    the pop iterators) with allocated but otherwise arbitrary arguments is well-formed -/
+theorem reachable_wf {h : Heap} (hr : Reachable h) : ∃ g, WF h g := hr.wf
+
+/-- … and from a reachable state no such operation panics -/
+theorem reachable_no_panic {h : Heap} (hr : Reachable h) (op : Op) (hv : op.valid h) :
+    ∃ h', op.run h = some h' ∧ Reachable h' := hr.no_panic op hv
+
+/-- `Reachable` is "some list of operations runs (with validity checks) from the empty heap" -/
+theorem reachable_iff {h : Heap} : Reachable h ↔ ∃ ops, runOps ops {} = some h := reachable_iff_runOps
+
+/-- hence `runOps` can only fail on an unallocated argument -/
+theorem runOps_wf {ops : List Op} {h : Heap} (he : runOps ops {} = some h) : ∃ g, WF h g :=
+  (reachable_iff.2 ⟨ops, he⟩).wf
+
+/-- the observations of a reachable state are consistent: forward and backward traversal of
+    every allocated list are reverses of each other, end at the sentinel and `Len` agrees -/
+theorem reachable_walks {h : Heap} (hr : Reachable h) {l : Nat} (hl : l < h.nl) :
+    ∃ xs : List Nat, (∀ fuel, xs.length < fuel →
+        (h.lazySetup l).walkFwd l fuel = (xs, "end") ∧ (h.lazySetup l).walkBwd l fuel = (xs.reverse, "end")) ∧
+      (h.hdr l).length = xs.length := by
+  obtain ⟨g, hw⟩ := hr.wf
+  exact ⟨g l, fun fuel hf => ⟨walkFwd_eq hw hl hf, walkBwd_eq hw hl hf⟩, (hw.lwf l).len⟩
+
+/-- non-vacuity: `demoOps` runs, so its final state is reachable and well-formed; list 1 holds the
+    elements 5,2 with items 40,7, the copy (list 2) holds 40,10 after one reverse pop -/
+example : ∃ h g, runOps demoOps {} = some h ∧ Reachable h ∧ WF h g ∧ h.nl = 3 ∧
+    g 0 = [] ∧ g 1 = [5, 2] ∧ vals h g 1 = [40, 7] ∧ g 2 = [8, 9] ∧ vals h g 2 = [40, 10] := by
+  have h0 : (runOps demoOps {}).isSome = true := by decide
+  obtain ⟨h, he⟩ := Option.isSome_iff_exists.1 h0
+  have hr : Reachable h := reachable_iff.2 ⟨_, he⟩
+  obtain ⟨g, hw⟩ := hr.wf
+  have e1 : ((runOps demoOps {}).map fun h => (h.nl, (h.hdr 0).root, (h.hdr 1).root, (h.hdr 2).root)) =
+      some (3, some 0, some 3, some 7) := by decide
+  have e3 : ((runOps demoOps {}).map fun h => (h.walkFwd 0 10, h.walkFwd 1 10, h.walkFwd 2 10)) =
+      some (([], "end"), ([5, 2], "end"), ([8, 9], "end")) := by decide
+  have e4 : ((runOps demoOps {}).map fun h => ((h.hdr 0).length, (h.hdr 1).length, (h.hdr 2).length)) =
+      some (0, 2, 2) := by decide
+  have e2 : ((runOps demoOps {}).map fun h => ([5, 2].map fun a => (h.node a).item,
+      [8, 9].map fun a => (h.node a).item)) = some ([40, 7], [40, 10]) := by decide
+  rw [he] at e1 e2 e3 e4
+  simp only [Option.map_some, Option.some.injEq, Prod.mk.injEq] at e1 e2 e3 e4
+  obtain ⟨n1, r0, r1, r2⟩ := e1
+  obtain ⟨w0, w1, w2⟩ := e3
+  obtain ⟨l0, l1, l2⟩ := e4
+  have g0 : g 0 = [] := by
+    have hl := (hw.lwf 0).len; rw [l0] at hl
+    have := hw.walkFwd r0 (fuel := 10) (by omega)
+    rw [w0] at this; exact (congrArg Prod.fst this).symm
+  have g1 : g 1 = [5, 2] := by
+    have hl := (hw.lwf 1).len; rw [l1] at hl
+    have := hw.walkFwd r1 (fuel := 10) (by omega)
+    rw [w1] at this; exact (congrArg Prod.fst this).symm
+  have g2 : g 2 = [8, 9] := by
+    have hl := (hw.lwf 2).len; rw [l2] at hl
+    have := hw.walkFwd r2 (fuel := 10) (by omega)
+    rw [w2] at this; exact (congrArg Prod.fst this).symm
+  refine ⟨h, g, he, hr, hw, n1, g0, g1, ?_, g2, ?_⟩
+  · unfold vals; rw [g1]; exact e2.1
+  · unfold vals; rw [g2]; exact e2.2
+
+/-- non-vacuity of the hypotheses of the one-step theorems: a well-formed heap with a non-empty
+    list and a detached ok element exists -/
+example : ∃ h g n, WF h g ∧ g 0 = [1, 2, 3, 4] ∧ n < h.nn ∧ (h.node n).ok = true ∧
+    (h.node n).list = none := by
+  obtain ⟨h, g, _, hw, hg, _⟩ := demo4_wf
+  exact ⟨(h.makeElem 0).1, g, h.nn, hw.alloc rfl, hg, by simp [Heap.makeElem], by simp [Heap.makeElem],
+    by simp [Heap.makeElem]⟩
 
 end FunModel.C16
